@@ -225,3 +225,95 @@ Fixpoint wf_tail_program (tp : name -> name) (k : N) (P : program) : bool :=
   | [] => true
   | f :: r => (negb (rewritable k f) || wf_tail tp k f) && wf_tail_program tp (k + temps_used false k f) r
   end.
+
+(* ---------- the unit-parameter class (NOT covered by the theorem; see ProofsWitness.tailrec_unit_param_refuted) ----------
+   A unit function may return a unit-typed PARAMETER at a leaf (`if n > 0 { f(n - 1, u) } else { u }`): the rewrite then
+   lets the loop end with u where the recursive version returns the literal 0 after a discarded self call.  The two
+   agree exactly when u is 0, which holds of programs compiled from source (every unit value is 0) but is not a fact
+   about MIR.  `rleaves` recognises the shape: Some ps = every leaf of the return value is the literal 0, the result
+   of a self call, or one of the parameters ps. *)
+Definition leaf0 (params : list name) (e : expr) : option (list name) :=
+  match as_var e with
+  | None => if is_zero e then Some [] else None
+  | Some x => if memb x params then Some [x] else None
+  end.
+
+Fixpoint rleaves (fname : N) (params : list name) (s : stmt) (e : expr) {struct s} : option (list name) :=
+  match as_var e with
+  | None => if is_zero e then Some [] else None
+  | Some x =>
+      let dflt := if memb x params then Some [x] else None in
+      match s with
+      | SCall (CFn g _ _) _ _ (Some r) => if N.eqb g fname && N.eqb r x then Some [] else dflt
+      | SIf _ s1 s2 fas =>
+          match find (is_rc (Some x)) fas with
+          | Some q =>
+              match last_of (leaf0 params (q_e1 q)) (fun s => rleaves fname params s (q_e1 q)) s1,
+                    last_of (leaf0 params (q_e2 q)) (fun s => rleaves fname params s (q_e2 q)) s2 with
+              | Some a, Some b => Some (a ++ b)
+              | _, _ => None
+              end
+          | None => dflt
+          end
+      | _ => dflt
+      end
+  end.
+
+Definition ret_leaves (f : func) : option (list name) :=
+  last_of (leaf0 (f_params f) (f_ret f)) (fun s => rleaves (f_name f) (f_params f) s (f_ret f)) (f_body f).
+
+(* every direct call of `g` in the statement has arguments that satisfy `pred` *)
+Fixpoint calls_sat (g : N) (pred : list expr -> bool) (s : stmt) : bool :=
+  match s with
+  | SCall (CFn h _ _) args _ _ => if N.eqb h g then pred args else true
+  | SIf _ s1 s2 _ => forallb (calls_sat g pred) s1 && forallb (calls_sat g pred) s2
+  | SSIf _ _ ss | SWhile _ ss _ => forallb (calls_sat g pred) ss
+  | _ => true
+  end.
+
+(* y is a late-init variable of the block (declared, hence 0) all of whose assignments assign the literal 0:
+   how `let v = Process.println(..)` looks after lowering *)
+Fixpoint declared (y : name) (s : stmt) : bool :=
+  match s with
+  | SDecl x _ => N.eqb x y
+  | SIf _ s1 s2 _ => existsb (declared y) s1 || existsb (declared y) s2
+  | SSIf _ _ ss | SWhile _ ss _ => existsb (declared y) ss
+  | _ => false
+  end.
+Fixpoint assigns_zero (y : name) (s : stmt) : bool :=
+  match s with
+  | SAssign x e => if N.eqb x y then is_zero e else true
+  | SIf _ s1 s2 _ => forallb (assigns_zero y) s1 && forallb (assigns_zero y) s2
+  | SSIf _ _ ss | SWhile _ ss _ => forallb (assigns_zero y) ss
+  | _ => true
+  end.
+Definition zero_arg (body : list stmt) (a : expr) : bool :=
+  match a with
+  | EInt 0 => true
+  | EVar y _ => existsb (declared y) body && forallb (assigns_zero y) body
+  | _ => false
+  end.
+
+Fixpoint index_of (x : name) (l : list name) : nat :=
+  match l with [] => O | y :: r => if N.eqb x y then O else S (index_of x r) end.
+
+(* wf_tail with tail_ok replaced by: the leaves are 0 / self-call results / parameters, each such parameter is handed
+   on at its own position by every self call, and every other call site of the function in the program passes the
+   literal 0 (or a late-init variable that is only ever assigned 0) there *)
+Definition unit_param_class (tp : name -> name) (k : N) (P : program) (f : func) : bool :=
+  wf_func f &&
+  forallb (self_arity (f_name f) (length (f_params f))) (f_body f) &&
+  belowb k (binders_l (f_body f)) &&
+  nodupb (map tp (f_params f)) &&
+  match ret_leaves f with
+  | None => false
+  | Some ps =>
+      forallb (fun p =>
+                 let i := index_of p (f_params f) in
+                 forallb (fun g =>
+                            forallb (calls_sat (f_name f)
+                                       (fun args => if N.eqb (f_name g) (f_name f)
+                                                    then match nth_error args i with Some (EVar y _) => N.eqb y p | _ => false end
+                                                    else match nth_error args i with Some a => zero_arg (f_body g) a | None => false end))
+                                    (f_body g)) P) ps
+  end.
